@@ -2,12 +2,17 @@
 over generated inputs.  Never counted as proved; reported under coverage.bounded."""
 from __future__ import annotations
 
+import contextlib
 import hashlib
+import io
 import json
 import math
 import time
 
 import numpy as np
+
+
+_DEVNULL = io.StringIO()
 
 
 def jsonable(x):
@@ -48,7 +53,8 @@ def run(checkers, cases, rule, bounds, max_violations=5, time_budget_s=None):
             s = json.dumps(inp, default=str)
             samples.append({"checker": name, "input": json.loads(s) if len(s) < 600 else s[:600] + "..."})
         try:
-            failed = checkers[name](inp)
+            with contextlib.redirect_stdout(_DEVNULL):
+                failed = checkers[name](inp)
         except Exception as e:  # an exception escaping a checker is a checker error, not a violation
             raise RuntimeError("checker %s crashed on %s: %r" % (name, json.dumps(inp, default=str)[:400], e)) from e
         if failed:
